@@ -542,6 +542,18 @@ Section BvhProofs.
     destruct (step st o); simpl; auto.
   Qed.
 
+  (** [fill_tree_with_colliders] is the history add_collider* ; whitelists.update ; update_collider_poses *)
+  Lemma fill_as_ops objs w : forall st,
+    fill_tree_with_colliders C cmin cmax czero go_left cost_ok frame feqb coll pose upd aabb_of st objs w =
+    run_ops st (map (fun fo => Add frame pose (fst fo) (snd fo)) objs ++
+                [SetWl frame pose w; UpdatePoses frame pose]).
+  Proof.
+    unfold fill_tree_with_colliders.
+    induction objs as [|[f o] objs IH]; intros st; simpl.
+    - destruct (update_collider_poses (set_whitelists C frame feqb coll pose st w)); reflexivity.
+    - destruct (add_collider st f o) as [st1|e]; simpl; auto.
+  Qed.
+
   (** what C14 provides about colliders: a class [good] of collider objects closed under
       update_pose, on which update_pose puts the object "at" the given pose *)
   Variable good : coll -> Prop.
